@@ -19,15 +19,30 @@ def nops(n):
     return [L('    addi x0 x0 0', 'instr', 'addi', [('r', 0), ('r', 0), ('i', 0)]) for _ in range(n)]
 
 
-def ref_expr(rnd, lab):
-    """(text, kind, base) of a label-referring expression"""
+def ref_expr(rnd, lab, wide=False):
+    """(text, kind, base) of a label-referring expression; wide = the consumer holds 64 bits"""
     k = rnd.random()
     if k < 0.35:
         return lab, 'bare', 0
     if k < 0.7:
         base = rnd.choice([0, 4, 0x1000, 0x08000000, 0x20000000, 0x80000000, 0xfffff000, rnd.randrange(0, M32) & ~3])
+        txt = hex(base) if rnd.random() < 0.7 else str(base)
+        r = rnd.random()
+        if wide and r < 0.4:
+            # a 64-bit table entry: the sum does not fit 32 bits and must not be folded into them
+            base = rnd.choice([1 << 32, 0xffffffc000000000, (1 << 63) - 0x10000, 0x100000000 + (rnd.randrange(0, M32) & ~3), 0xffffffff])
+            txt = hex(base)
+        elif r < 0.3:
+            # a base written as an expression whose top-level operator binds looser than the `+` of label + base
+            a, b = rnd.choice([(0x20000000, 0x400), (0x08000000, 0x1c), (0x40021000, 0x3), (0x1000, 0x10), (0xff00, 0x0ff0)])
+            op = rnd.choice(['|', '^', '&', '<<', '>>'])
+            if op in ('<<', '>>'):
+                a, b = rnd.choice([(1, 11), (3, 12), (0x80000000, 4), (0x12345, 8), (1, 20)])
+            txt = '%s %s %s' % (hex(a), op, b if op in ('<<', '>>') else hex(b))
+            base = {'|': a | b, '^': a ^ b, '&': a & b, '<<': a << b, '>>': a >> b}[op]
+            return '%%position(%s, %s)' % (lab, txt), 'position', base
         form = rnd.choice(['%%position(%s, %s)', '%%position %s %s'])
-        return form % (lab, hex(base) if rnd.random() < 0.7 else str(base)), 'position', base
+        return form % (lab, txt), 'position', base
     form = rnd.choice(['%%offset(%s)', '%%offset %s'])
     return form % lab, 'offset', 0
 
@@ -37,14 +52,19 @@ def gen_label_program(rnd, arith=False):
     shrinking pseudo-instructions"""
     nlab = rnd.randrange(1, 4)
     labels = ['A%d' % i for i in range(nlab)]
+    if rnd.random() < 0.3:
+        # labels may be named like registers (or like nothing in particular): a reference is still the label's address
+        for i, nm in enumerate(rnd.sample(['tp', 's0', 'fp', 'x5', 'ra', 'a0', 't6', 'gp', 'x31', 'sp'], nlab)):
+            if rnd.random() < 0.6:
+                labels[i] = nm
     body = []
     n = rnd.randrange(4, 18)
     for _ in range(n):
         k = rnd.random()
         lab = rnd.choice(labels)
         if k < 0.2:
-            txt, kind, base = ref_expr(rnd, lab)
-            d = rnd.choice(['dw', 'pack <I', 'pack <i', 'dd', 'pack >I'])
+            d = rnd.choice(['dw', 'pack <I', 'pack <i', 'dd', 'pack >I', 'pack <Q', 'dd'])
+            txt, kind, base = ref_expr(rnd, lab, wide=d in ('dd', 'pack <Q'))
             body.append(L('    %s %s' % (d, txt), 'dref', d, [kind, base], lab))
         elif k < 0.4:
             txt, kind, base = ref_expr(rnd, lab)
@@ -141,7 +161,7 @@ def evaluate(asm, lines, idx=0):
             if ln.kind == 'dref':
                 kind, base = ln.ops
                 want = ref_value(kind, base, lay.label_off[ln.label], off)
-                w = 8 if ln.name == 'dd' else 4
+                w = 8 if ln.name in ('dd', 'pack <Q') else 4
                 big = ln.name.startswith('pack >')
                 got = int.from_bytes(b, 'big' if big else 'little')
                 out['n_refs'] += 1
